@@ -23,7 +23,8 @@ LEVEL = "model_checking"
 RULE = ("(1) BFS over histories of single-instruction subroutines from a 45-instruction menu, state = (registers, arrays, "
         "shared memory, allocated virtual qubits), hashed canonically, each transition executed on the real executor and on "
         "the reference VM; (2) every program of <= N instructions over a menu with all six branches and jmp to every target "
-        "0..N+1, compared on executed-pc trace, final state, fault line; distinct = distinct states / distinct programs; "
+        "0..N+1, compared on executed-pc trace, final state, fault line; (3) four programs (moves/returns, arithmetic, array "
+        "index and bounds, branches) for every ordered pair of the 64 registers; distinct = distinct states / distinct programs; "
         "non-trivial = transition or program on which the reference defines the outcome (not 'unspecified')")
 ASSUMPTIONS = ["reference semantics: DESIGN.md appendix B (negative indices, arithmetic on never-written registers and negative "
                "jump targets are 'unspecified' and excluded, counted in the evidence)",
@@ -340,6 +341,35 @@ def programs_shard(shard):
     return part
 
 
+def regfile_shard(shard):
+    """Every register of every bank (4 x 16), in every operand role, against every other register: the alphabets above use a
+    handful of low-numbered registers, so the top of the register file and aliasing between registers are covered here."""
+    _, bank, idx = shard
+    part = new_part()
+    a = ("r", bank, idx)
+    for b in [("r", bk, i) for bk in "RCQM" for i in range(16)]:
+        progs = [
+            [("set", [a, 7]), ("set", [b, 9]), ("ret_reg", [a]), ("ret_reg", [b])],
+            [("set", [a, 1]), ("set", [b, 2]), ("add", [a, a, b]), ("sub", [b, a, b]), ("addm", [a, a, b, b]), ("ret_reg", [a])],
+            [("set", [a, 0]), ("set", [b, 2]), ("array", [b, ("addr", 3)]), ("store", [b, ("entry", 3, a)]), ("load", [a, ("entry", 3, a)]),
+             ("lea", [b, ("addr", 3)]), ("ret_arr", [("addr", 3)]), ("wait_all", [("slice", 3, a, b)])],
+            [("set", [a, 1]), ("set", [b, 1]), ("beq", [a, b, 5]), ("set", [a, 5]), ("set", [b, 6]), ("blt", [a, b, 7]), ("set", [a, 8]),
+             ("bnz", [a, 9]), ("set", [b, 3])],
+        ]
+        for prog in progs:
+            ex = fresh_executor()
+            run_real(ex, SETUP)
+            ref_state = ref_from_snapshot(snapshot(ex))
+            case = {"kind": "program", "setup": SETUP, "program": prog}
+            part["evals"] += 1
+            cls, _ = compare_step(ex, prog, ref_state, case, part, "register-file")
+            part["transitions"] += 1
+            if cls != "unspecified":
+                part["distinct"] += 1
+                count(part, "register-file-programs")
+    return part
+
+
 def _det(hist):
     return key_of(snapshot(build(hist)))
 
@@ -356,6 +386,8 @@ def run(ctx):
         for first in range(len(program_menu(n, reduced))):
             shards.append((n, first, reduced))
     res = ctx.pmap(programs_shard, shards)
+    res += ctx.pmap(regfile_shard, [("regs", bk, i) for bk in "RCQM" for i in range(16)])
+    ctx.require("register-file-programs", 64 * 64 * 2)
     ctx.total["states"] += sum(r["distinct"] for r in res)   # each non-unspecified program ends in one explored final state
     ctx.extra["program_lengths"] = [n for n, _ in plens]
     for mn in ("set", "add", "sub", "addm", "subm", "store", "load", "undef", "array", "lea", "ret_reg", "ret_arr", "qalloc",
